@@ -470,7 +470,44 @@ def writer_spec(rep, u):
     desc = ("r_buf_wbuf_set on a commit that fits what was handed out: refused iff empty or below the minimum block; block length = "
             "committed - skipped, base moved by the skipped bytes, write offset advanced by the whole commit, the previous round's last block untouched; a commit larger than the space left is refused")
     (rep.violated if bad else rep.undecided if undec else rep.proved)("R-SPEC", fs, "wbuf-set", desc, bad or undec or "%d classes" % m)
-    return n + m
+    # commit by pointer (r_buf_wbuf_set2): the caller names the first committed byte itself, so the bytes before it are a gap
+    k = 0
+    f2 = need(u, "r_buf_wbuf_set2")
+    rep.functions.add(f2.name)
+    bad = undec = None
+    rb2 = f2.params[0]["n"]
+    len2_k = "%s->iov[%s->iov_index].iov_len" % (rb2, rb2)
+    base2_k = "%s->iov[%s->iov_index].iov_base" % (rb2, rb2)
+    for wpos, gap, size_ in itertools.product((0, 500, 900), (0, 4, 40), (20, 32, 64, 100, 120)):
+        pe = r_stride.PE(u)
+        bind = {rb2: RB, f2.params[1]["n"]: RING + wpos + gap, f2.params[2]["n"]: size_, f2.params[3]["n"]: 0, rb2 + "->size": SIZE,
+                rb2 + "->wpos": wpos, rb2 + "->iov": IOV, rb2 + "->iov_index": 3, rb2 + "->min_block_size": 32, rb2 + "->buf": RING,
+                rb2 + "->buf_max": RING + SIZE, rb2 + "->flags": 0, rb2 + "->iov_index_max": 5, rb2 + "->round_num": 7,
+                len2_k: 0, base2_k: RING + wpos}
+        ev, ret = pe.trace(f2, bind)
+        what = "write offset %d, commit by pointer of %d bytes starting %d bytes into the region handed out" % (wpos, size_, gap)
+        if isinstance(ret, str):
+            undec = undec or "%s: %s" % (what, ret)
+            continue
+        k += 1
+        fits = wpos + gap + size_ <= SIZE
+        ok_commit = size_ >= 32 and fits
+        if (ret == 0) != ok_commit:
+            bad = bad or "%s: %s" % (what, "accepted" if ret == 0 else "refused (returns %s)" % ret)
+            continue
+        a = ev[-1][1]
+        if ret != 0:
+            if a.get(rb2 + "->wpos") != wpos:
+                bad = bad or "%s: refused but the write offset changed" % what
+            continue
+        got = a.get(rb2 + "->wpos")
+        if got != wpos + gap + size_:
+            bad = bad or ("%s: the write offset becomes %s, the committed block ends at %d - the next region handed out overlaps "
+                          "committed bytes" % (what, got, wpos + gap + size_))
+    desc = ("r_buf_wbuf_set2 (commit by pointer): refused iff below the minimum block or past the ring's end, leaving the write offset "
+            "alone; accepted commits leave the write offset at the end of the committed block, whatever gap precedes it")
+    (rep.violated if bad else rep.undecided if undec else rep.proved)("R-SPEC", f2, "wbuf-set2", desc, bad or undec or "%d classes" % k)
+    return n + m + k
 
 
 # ------------------------------------------------------------------ R-CONT: continuation of a gather into the next range
